@@ -953,7 +953,9 @@ func (m *bsMachine) doCloseBuffer(t *rapid.T) {
 			}
 			if rapid.Bool().Draw(t, "resolveByCommit") {
 				if err := c.c.Commit(); err != nil {
-					m.fail("C02/commit-error", "Commit(c%d) while the buffer is closing failed: %v", c.id, err)
+					// (C12 as well: Close waits for exactly this commit; if it is refused the Close cannot terminate
+					// although the program does resolve its reads)
+					m.fail("C02+C12/commit-error-while-closing", "Commit(c%d) while the buffer is closing failed: %v", c.id, err)
 				}
 				c.committed += c.delta
 				c.delta = 0
